@@ -354,10 +354,9 @@ def explore(subseed, cfg):
     if r0['kind'] in ('crash', 'wall_timeout') or r0.get('gaps'):
         out['harness'].append(f'reference run: {r0["kind"]} {r0.get("gaps")}')
         return _fin(out)
-    dupd = len([x for x in case['opts'] if x.startswith('LVL')]) > 1
-    if o0['failed'] and not ambiguous and not dupd:
-        out['discarded'][f'reference fails: {(r0.get("exc") or r0.get("stderr") or "")[:50]}'] = 1
-        return _fin(out)
+    if o0['failed']:
+        # a world whose reference run is rejected is still explored: it must be rejected in every other run too
+        pr['reference_run_rejected'] = 1
 
     def do(variant, group):
         c = copy.deepcopy(case)
